@@ -88,6 +88,14 @@ def run_case(R: Recorder, case: dict[str, Any], verbose: bool = False) -> None:
     async def function(a: int, *, k: str) -> Any:
         fn["started"] = True
         fn["args"] = (a, k)
+        if case.get("fn_stale"):
+            # the function absorbed a cancellation request of its own making before its real work (a step with a deadline of its own that it
+            # handled): its task's count of cancellation requests stays above zero while it is alive and working
+            asyncio.current_task().cancel()  # type: ignore[union-attr]
+            try:
+                await asyncio.sleep(0)
+            except asyncio.CancelledError:
+                pass
         try:
             try:
                 if d > 0:
@@ -382,6 +390,8 @@ def cases(tier: str):  # noqa: ANN201
             yield {"d": d, "outcome": outcome, "T": T, "c": c, "scoped": scoped}
         if c is None and outcome in ("value", "exception", "selfcancel"):
             yield {"d": d, "outcome": outcome, "T": T, "c": None, "scoped": False, "stale_cancel": True}
+        if d > 0 and (c is None or c in (0.5, 1.0, 1.5)):
+            yield {"d": d, "outcome": outcome, "T": T, "c": c, "scoped": False, "fn_stale": True}
         # cancel requests a few loop iterations after the instant at which the function ends / the deadline fires
         if c is not None and (c == d or c == T):
             for k in range(1, 7):
